@@ -529,6 +529,21 @@ DOMNode *DOMDocumentImpl::insertBefore(DOMNode *newChild, DOMNode *refChild)
         )
         throw DOMException(DOMException::HIERARCHY_REQUEST_ERR,0, getMemoryManager());
 
+    // The children of a fragment are inserted one by one: make sure that they
+    // do not bring a second element before any of them has been transferred
+    if (newChild->getNodeType() == DOMNode::DOCUMENT_FRAGMENT_NODE)
+    {
+        bool haveElement = (fDocElement != 0);
+        for (DOMNode* kid = newChild->getFirstChild(); kid != 0; kid = kid->getNextSibling())
+        {
+            if (kid->getNodeType() != DOMNode::ELEMENT_NODE)
+                continue;
+            if (haveElement)
+                throw DOMException(DOMException::HIERARCHY_REQUEST_ERR,0, getMemoryManager());
+            haveElement = true;
+        }
+    }
+
     // if the newChild is a documenttype node created from domimplementation, set the ownerDoc first
     if ((newChild->getNodeType() == DOMNode::DOCUMENT_TYPE_NODE) && !newChild->getOwnerDocument())
         ((DOMDocumentTypeImpl*)newChild)->setOwnerDocument(this);
